@@ -599,15 +599,24 @@ class Ovld:
         self._update()
 
     def _update(self):
+        # Whether or not a rebuild goes through (invalid method,
+        # interruption), none of the linked variants may keep dispatching
+        # over the previous definitions: every one of them is updated, and
+        # the first failure is reported once they all have been.
+        failure = None
         try:
             if self._compiled:
                 self.compile()
-        finally:
-            # Whether or not this rebuild went through (invalid method,
-            # interruption), the linked variants must not keep dispatching
-            # over the previous definitions.
-            for child in self.children:
+        except BaseException as exc:
+            failure = exc
+        for child in self.children:
+            try:
                 child._update()
+            except BaseException as exc:
+                if failure is None:
+                    failure = exc
+        if failure is not None:
+            raise failure
         if hasattr(self, "dispatch"):
             self.dispatch.__doc__ = self.mkdoc()
 
